@@ -47,7 +47,8 @@ def main():
         return j, fired
     with ProcessPoolExecutor(max_workers=14) as ex:
         dets = list(ex.map(_det, alljobs, chunksize=4))
-    pick = [(j, f) for j, f in dets if f and all(TABLE_RULES.match(r) for r in f)]
+    only_old = os.environ.get("OLD_RULES") == "1"
+    pick = [(j, f) for j, f in dets if f and (all(TABLE_RULES.match(r) for r in f) != only_old)]
     print("detected by table rules only", len(pick), flush=True)
     base = {m: run("/repo", m) for m in (1, 2)}
 
